@@ -22,7 +22,7 @@ ASSUMPTIONS = [
 ]
 SELECTION_OPS = {"min", "max", "first", "last", "cummin", "cummax", "shift", "rolling_min", "rolling_max", "head", "tail", "nth"}
 OPS = ops.RED * 2 + ["var", "std", "median", "quantile"] + ops.CUM + ops.ROLL + ops.SHIFT + ["ema"] + ops.SEL
-N_CASES = {"quick": 280, "thorough": 12000}
+N_CASES = {"quick": 280, "thorough": 2800}
 KEYC = ["np", "pd", "pd_index", "pl", "pa", "pa_chunked", "pd_arrow", "pd_arrow_chunked"]
 VALC = ["np", "pd", "pl", "pa", "pa_chunked", "pd_arrow", "pd_arrow_chunked"]
 
